@@ -28,3 +28,12 @@ package types
 //@   requires a != nil
 //@   ensures equal: (result == 0) <==> (deref(a) == a2)
 //@   modifies nothing
+
+//@ # ASSUMED: the 4-byte (little-endian) encoding of a coin id, injective
+//@ spec coinBytes(c int) string
+//@ axiom coinBytesLen: forall c int :: len(coinBytes(c)) == 4
+//@ axiom coinBytesInj: forall a int, b int :: coinBytes(a) == coinBytes(b) ==> a == b
+//@ func (CoinID).Bytes
+//@   trusted
+//@   ensures result != nil && fresh(result) && len(result) == 4 && bytestr(result) == coinBytes(c)
+//@   modifies nothing
